@@ -1292,3 +1292,76 @@ pub fn c14_lax(inp: &PV) -> PV {
     let o = LaxLens { ff, rf, r };
     PV::List(vec![pv_lax(&LO::map_arrow(&o, f.clone())), pv_lax(&LO::map_adapted(&o, f))])
 }
+
+// ------------------------------------------------------------------ C07 (array primitives through the trait interface, both backends)
+pub fn c07_prims(inp: &PV) -> PV {
+    // inputs: xs (small naturals), idx (indices < 4), ys (small naturals, same length as idx), d (non-zero), c,
+    // base (4 values >= 4), idx2, keys4, group
+    let xs = K::mk_ix(&inp.at(0).ts());
+    let idx = K::mk_ix(&inp.at(1).ts());
+    let ys = K::mk_ix(&inp.at(2).ts());
+    let (d, c) = (ki(inp, 3), ki(inp, 4));
+    let n = xs.len();
+    let iw = crate::explore::iw();
+    let four = K::mk_i(tm::c(4, iw));
+    let base = K::mk_ix(&inp.at(5).ts());
+    let group = tm::as_const(inp.at(8).t()).expect("group");
+    let skip = || PV::None;
+    let mut out: Vec<PV> = (0..24).map(|_| skip()).collect();
+    match group {
+        // order/equality-based primitives on the value array
+        0 => {
+            let (keys, counts) = xs.sparse_bincount();
+            out[0] = pv_ix(&xs.argsort());
+            out[1] = pv_ix(&keys);
+            out[2] = pv_ix(&counts);
+            out[3] = pv_ix(&xs.bincount(K::mk_i(tm::c(8, iw))));
+            out[4] = pv_ix(&xs.zero());
+            out[5] = match xs.max() {
+                None => PV::Tag("none".into(), vec![]),
+                Some(m) => PV::Some(Box::new(PV::T(K::rd_i(&m)))),
+            };
+            out[6] = pv_ix(&xs.cumulative_sum());
+            out[7] = PV::T(K::rd_i(&xs.sum()));
+            out[21] = pv_ix(&(xs.clone() + xs.clone()));
+            out[22] = pv_ix(&(n.clone() + &xs));
+        }
+        4 => {
+            out[8] = pv_ix(&base.sort_by(&K::mk_ix(&inp.at(7).ts())));
+        }
+        // count-driven primitives
+        1 => {
+            out[9] = pv_ix(&xs.repeat(xs.get_range(..)));
+            out[10] = pv_ix(&xs.segmented_arange());
+            let (q, r) = xs.quot_rem(d);
+            out[11] = pv_ix(&q);
+            out[12] = pv_ix(&r);
+        }
+        // index-driven primitives
+        2 => {
+            let mut sub = base.clone();
+            // amounts are all 1 and the base values are >= 4, so repeated indices never underflow
+            let ones = <K as ArrayKind>::Index::fill(K::mk_i(tm::c(1, iw)), idx.len());
+            sub.scatter_sub_assign(&idx, &ones);
+            let mut asg = base.clone();
+            asg.scatter_assign(&idx, ys.clone());
+            let mut asgc = base.clone();
+            asgc.scatter_assign_constant(&idx, c.clone());
+            out[13] = pv_ix(&ys.mul_constant_add(c.clone(), &ys));
+            out[14] = pv_ix(&base.gather(idx.get_range(..)));
+            out[15] = pv_ix(&ys.scatter(idx.get_range(..), four.clone()));
+            out[16] = pv_ix(&asg);
+            out[17] = pv_ix(&asgc);
+            out[18] = pv_ix(&sub);
+            out[23] = pv_ix(&xs.concatenate(&ys));
+        }
+        // connected components
+        3 => {
+            let (cc, k) = <<K as ArrayKind>::Index as NaturalArray<K>>::connected_components(&idx, &K::mk_ix(&inp.at(6).ts()), four.clone());
+            out[19] = pv_ix(&cc);
+            out[20] = PV::T(K::rd_i(&k));
+        }
+        _ => panic!("ENGINE-ERROR: unknown primitive group"),
+    }
+    PV::List(out)
+}
